@@ -34,7 +34,30 @@ RULE = ("cases: (block class BTC/LTC, block bytes built by the reference seriali
         "as_blockheader() result, check_merkle_hash, and the object handed to message.pack as `header` of an honest 'merkleblock' "
         "proof, as an entry of 'headers', as `block` of 'block': packed bytes = reference wire encoding, parsed back by the "
         "library), then one 'headers' message over all objects of all kinds and the objects unchanged by packing; mismatching "
-        "blocks also through message.parse('block').")
+        "blocks also through message.parse('block'). "
+        "Special constants: every header field x every special value (all-zero, all-ones, single-bit, half-zero hashes; 0, 1, "
+        "2**31-1, 2**31, 2**32-1 integers; all at once) in honest blocks, in blocks over other transactions and with one root bit "
+        "flipped; header roots replaced by special constants and by other hashes of the same block (previous hash, a txid, the "
+        "header hash, single SHA-256), alone and inside an otherwise all-zero header; proofs with such headers / roots / "
+        "transaction ids; merkle() over lists of special constants. Counts on both sides of every compact-size boundary: 252-254 "
+        "and 65535-65536 transactions of a block, 252-254 and 65535-65537 hashes of a proof and entries of 'headers' (with per-entry counts up to 2**64-1), "
+        "252-254 flag bytes, 65535-65537 entries of merkle(). "
+        "Refused calls (shards errpath-*): one full block object and one header object live through a sequence in which every "
+        "kind of call the library rightly refuses part-way (message.pack with a missing trailing keyword, values that do not fit "
+        "their wire field, None / str / float / foreign-network objects at every field position of version, reject, merkleblock, "
+        "headers, block, getheaders, ping, inv, tx, blocktxn, filterload, addr; truncated / mismatching / non-bytes input to "
+        "message.parse, from_bin, parse, parse_as_header; a caller's stream that refuses after k bytes; hash / id / as_bin of an "
+        "unstreamable header; set_nonce(2**32 / None) and set_txs([.., None]) / set_txs(mismatching) on the judged objects, undone "
+        "through the same public method; merkle() over refused lists and with a combining function that raises part-way), on the "
+        "judged network and on the other network in the same process, is followed by judged calls (the object entry points above, "
+        "the three packers, honest / corrupted proofs, from_bin, mismatching block, merkle, a fresh header). Caller-owned "
+        "mutable arguments: merkle(list / list of bytearray / tuple), from_bin / message.parse(bytearray) with the buffer "
+        "overwritten afterwards, pack(lists / bytearrays / tuples), set_txs(list): argument unchanged, same answer on the second "
+        "call; lists returned by the parser edited by the caller, then the same bytes parsed again. "
+        "Long run (shard longrun): > 2**16 + 100 operations on ONE header object and ONE block object (set_nonce / hash, every "
+        "61st id / as_bin / check_merkle_hash), of merkle() on fresh and repeated 2- and 3-entry lists, of one network's "
+        "merkleblock parser (every 16th with a wrong root) and packer, and of from_bin on one-transaction blocks, each against an "
+        "incrementally kept reference.")
 ASSUMPTIONS = [
     "reference serialisers/merkle/partial merkle tree in vmon/refs (blockser, txser, merkle, pmt, p2p) are correct; self-tested on "
     "every run against the genesis header id, a real 3-transaction mainnet block, blocks 170/71038 roots, the developer-reference "
@@ -62,13 +85,20 @@ ASSUMPTIONS = [
     "id() and as_hex() are hexadecimal text of the demanded bytes; the letter case of the digits is not demanded",
     "LTC blocks are generated in the Bitcoin wire format (legacy and segwit transactions); Litecoin's MWEB transaction flag (0x08) "
     "and the MWEB block extension have no reference here and are outside the quantified domain",
+    "a call the library refuses (any exception) is never judged by itself unless the statement demands the refusal; what is judged "
+    "is every answer given AFTER it, which must be the answer given without it. set_nonce with a value that does not fit and "
+    "set_txs with a list that is refused leave the object as the library leaves it; the judged sequence continues only after the "
+    "same public method was called again with a valid value (that call must succeed)",
+    "list / tuple / bytearray arguments that the library accepts today are caller-owned: a call does not change them and the same "
+    "object handed over again gives the same answer; an object parsed out of a caller's bytearray is the block that was in the "
+    "buffer at the time of the call (the caller may reuse its buffer); forms the library refuses are counted, not judged",
     "every message.parse call runs under a per-call CPU-time alarm (20 CPU-seconds, user time of the worker, for inputs of at "
     "most ~100 kB that cost milliseconds): a call that does not return is neither 'accepted' nor 'rejected' and is reported as "
     "*.does_not_return; after the third such call a shard ends its workload early",
 ]
 EXPLANATION = ("every block/header/merkle/merkleblock call on the real library is compared with the reference; honest proofs must be "
                "accepted with exactly the matched ids in order, listed corruptions must raise")
-TIMEOUT = {"quick": 600, "thorough": 3 * 3600}
+TIMEOUT = {"quick": 1800, "thorough": 3 * 3600}
 
 BLOCK_SIZES = list(range(1, 34)) + [64, 65, 127, 129]
 EXH_LIMIT = {"quick": 11, "thorough": 14}
@@ -87,19 +117,33 @@ def configurations(tier):
 
 def plan(tier, seed):
     q = tier == "quick"
-    shards = [{"kind": "blocks", "net": "BTC", "reps": 2 if q else 40, "label": "blocks-BTC-a"},
-              {"kind": "blocks", "net": "BTC", "reps": 2 if q else 40, "label": "blocks-BTC-b"},
-              {"kind": "blocks", "net": "LTC", "reps": 2 if q else 40, "label": "blocks-LTC"},
+    shards = [{"kind": "blocks", "net": "BTC", "reps": 2 if q else 40, "label": "blocks-BTC-a", "csize_counts": [252, 254]},
+              {"kind": "blocks", "net": "BTC", "reps": 2 if q else 40, "label": "blocks-BTC-b", "csize_counts": [253]},
+              {"kind": "blocks", "net": "LTC", "reps": 2 if q else 40, "label": "blocks-LTC", "csize_counts": [252, 253]},
               {"kind": "merkle", "upto": 400 if q else 2100, "label": "merkle"},
               {"kind": "cve", "upto": 40 if q else 140, "label": "cve"},
               {"kind": "history", "net": "BTC", "reps": 4 if q else 100, "label": "history-BTC"},
               {"kind": "history", "net": "LTC", "reps": 4 if q else 100, "label": "history-LTC"},
               {"kind": "kinds", "net": "BTC", "reps": 8 if q else 150, "label": "kinds-BTC"},
               {"kind": "kinds", "net": "LTC", "reps": 8 if q else 150, "label": "kinds-LTC"}]
+    shards += [{"kind": "errpath", "net": "BTC", "reps": 36 if q else 1200, "label": "errpath-BTC"},
+               {"kind": "errpath", "net": "LTC", "reps": 36 if q else 1200, "label": "errpath-LTC"}]
     for p in range(N_PROOF_SHARDS):
+        # rng_shard: the proof shards keep the random streams they had before other shards were added in front of them
         shards.append({"kind": "proofs", "part": p, "parts": N_PROOF_SHARDS, "sampled": 96 if q else 8000,
                        "label": "proofs-%d" % p})
-    return shards
+    # rng_shard: every shard keeps the random stream it had before shards were added / reordered (new shards: 100+)
+    old = [sh for sh in shards if sh["kind"] not in ("errpath",)]
+    for k, sh in enumerate(old):
+        sh["rng_shard"] = k
+    for k, sh in enumerate(sh for sh in shards if sh["kind"] == "errpath"):
+        sh["rng_shard"] = 100 + k
+    # the longest shard is started first
+    return [{"kind": "longrun", "count": (1 << 16) + 100 if q else (1 << 17) + 100, "label": "longrun", "rng_shard": 110}] + shards
+
+
+def _rs(spec):
+    return spec.get("rng_shard", spec["shard"])
 
 
 def selftest(rec):
@@ -499,6 +543,10 @@ def proof_suite(net, txids, matches, rng, rec, bits_per_hash=1, cap=8, sample=Fa
     # header root altered
     J("root_altered", hd=dict(header, root=_flip(root, rng.randrange(256))))
     J("root_altered", hd=dict(header, root=RT.dsha(root)))
+    J("root_altered", hd=dict(header, root=b"\0" * 32))
+    sp = sorted(SPECIAL_HASHES)[(H + total + len(want)) % len(SPECIAL_HASHES)]
+    if SPECIAL_HASHES[sp] != root and sp != "zero":
+        J("root_altered", hd=dict(header, root=SPECIAL_HASHES[sp]))
     # not decided by the statement: compared with the reference, noted
     flips = list(range(used)) if used <= cap else sorted(rng.sample(range(used), cap))
     for p in flips:
@@ -564,7 +612,7 @@ def special_subsets(n, rng, count):
 
 def run_proofs(spec, rec):
     tier = spec["tier"]
-    rng = shard_rng(spec["seed"], PROPERTY, tier, spec["shard"])
+    rng = shard_rng(spec["seed"], PROPERTY, tier, _rs(spec))
     part, parts = spec["part"], spec["parts"]
     items = []
     for n in range(1, EXH_LIMIT[tier] + 1):
@@ -621,7 +669,7 @@ def cve_lists(txids):
 
 
 def run_cve(spec, rec):
-    rng = shard_rng(spec["seed"], PROPERTY, spec["tier"], spec["shard"])
+    rng = shard_rng(spec["seed"], PROPERTY, spec["tier"], _rs(spec))
     sizes = [n for n in list(range(2, spec["upto"] + 1)) + [65, 127, 129, 255, 257, 1000, 1001]]
     done = 0
     for idx, n in enumerate(sizes):
@@ -706,7 +754,7 @@ def _alterations(header, txs, rng):
 
 def run_blocks(spec, rec):
     net = spec["net"]
-    rng = shard_rng(spec["seed"], PROPERTY, spec["tier"], spec["shard"])
+    rng = shard_rng(spec["seed"], PROPERTY, spec["tier"], _rs(spec))
     sizes = BLOCK_SIZES + ([1000] if net == "BTC" or spec["tier"] == "thorough" else [])
     for rep in range(spec["reps"]):
         for n in sizes:
@@ -756,10 +804,130 @@ def run_blocks(spec, rec):
                "root": bytes.fromhex("4a5e1e4baab89f3a32518a88c31bc87f618f76673e2cc77ab2127b7afdeda33b")[::-1],
                "time": 1231006505, "bits": 0x1d00ffff, "nonce": 2083236893}
     judge_header(net, RB.ser_header(genesis), rec)
+    r2 = shard_rng(spec["seed"], PROPERTY, spec["tier"], _rs(spec), "special")
+    run_special(net, r2, rec)
+    # transaction counts on both sides of the one-byte / three-byte compact-size boundary
+    for n in spec.get("csize_counts", ()):
+        header, txs = G.rand_block(r2, n, small=True)
+        rec.ev("csize_boundary_tx_count:%d" % n)
+        judge_block(net, RB.ser_block(header, txs), rec)
+        judge_badroot(net, RB.ser_block(header, txs[:-2] + [txs[-1], txs[-2]]), rec, "swapped_last_two")
+        judge_badroot(net, RB.ser_block(dict(header, root=b"\0" * 32), txs), rec, "special_root")
+
+
+# special constant values of header fields (a convenience that treats "not filled in yet" / "genesis" / "unset" values of a
+# header field differently must not change what a block is): every field x every special value, in honest blocks and in
+# blocks whose transactions do not hash to the root
+SPECIAL_HASHES = {
+    "zero": b"\0" * 32, "ones": b"\xff" * 32, "first_byte_01": b"\x01" + b"\0" * 31, "last_byte_01": b"\0" * 31 + b"\x01",
+    "first_byte_80": b"\x80" + b"\0" * 31, "last_byte_80": b"\0" * 31 + b"\x80", "low_half_zero": b"\0" * 16 + b"\xa5" * 16,
+    "high_half_zero": b"\x5a" * 16 + b"\0" * 16,
+}
+SPECIAL_U32 = {"0": 0, "1": 1, "7fffffff": 0x7fffffff, "80000000": 0x80000000, "ffffffff": 0xffffffff}
+INT_FIELDS = ("version", "time", "bits", "nonce")
+SPECIAL_SIZES = (1, 2, 3, 5, 8)
+
+
+def special_headers(header):
+    """(label, header) for every single field set to every special value (root excluded), plus all of them at once"""
+    for name, v in SPECIAL_HASHES.items():
+        yield "prev=" + name, dict(header, prev=v)
+    for f in INT_FIELDS:
+        for name, v in SPECIAL_U32.items():
+            yield "%s=%s" % (f, name), dict(header, **{f: v})
+    yield "all_zero_but_root", dict(header, prev=b"\0" * 32, version=0, time=0, bits=0, nonce=0)
+    yield "all_ones_but_root", dict(header, prev=b"\xff" * 32, version=0xffffffff, time=0xffffffff, bits=0xffffffff, nonce=0xffffffff)
+
+
+def special_roots(header, txs):
+    """(label, root) special constant roots and roots that are other hashes of the same block; none is the merkle root"""
+    for name, v in SPECIAL_HASHES.items():
+        yield name, v
+    yield "prev_hash", header["prev"]
+    yield "first_txid", RT.txid_bytes(txs[0]) if len(txs) > 1 else RT.dsha(RT.txid_bytes(txs[0]))
+    yield "last_txid", RT.txid_bytes(txs[-1]) if len(txs) > 1 else RT.txid_bytes(txs[0])[::-1]
+    yield "header_hash", RB.block_hash(header)
+    yield "single_sha256_root", hashlib.sha256(header["root"]).digest()
+
+
+def run_special(net, rng, rec):
+    for n in SPECIAL_SIZES:
+        header, txs = G.rand_block(rng, n)
+        # a coinbase-shaped first transaction (null previous output) is part of the block like any other
+        txs[0]["ins"] = [dict(txs[0]["ins"][0], prev=b"\0" * 32, index=0xffffffff)]
+        header["root"] = RB.root_of(txs)
+        t2 = [dict(t) for t in txs]
+        t2[-1] = dict(t2[-1], lock_time=t2[-1]["lock_time"] ^ 1)
+        for label, h in special_headers(header):
+            rec.ev("special:honest:" + label)
+            judge_block(net, RB.ser_block(h, txs), rec)
+            # the same special header over transactions that do not hash to its root, and with one root bit flipped
+            rec.ev("special:badroot:" + label)
+            judge_badroot(net, RB.ser_block(h, t2), rec, "special_field")
+            judge_badroot(net, RB.ser_block(dict(h, root=_flip(h["root"], (n * 37) % 256)), txs), rec, "special_field")
+        for label, root in special_roots(header, txs):
+            if root == header["root"]:
+                continue
+            rec.ev("special:root:" + label)
+            judge_badroot(net, RB.ser_block(dict(header, root=root), txs), rec, "special_root")
+            judge_header(net, RB.ser_header(dict(header, root=root)), rec)
+            # two at once: special root in an otherwise special header
+            for l2, h in (("all_zero", dict(header, prev=b"\0" * 32, version=0, time=0, bits=0, nonce=0)),
+                          ("prev_same", dict(header, prev=root))):
+                judge_badroot(net, RB.ser_block(dict(h, root=root), txs), rec, "special_root")
+        rec.ev("special:all_zero_header")
+        judge_badroot(net, RB.ser_block(dict(header, prev=b"\0" * 32, root=b"\0" * 32, version=0, time=0, bits=0, nonce=0), txs), rec,
+                      "special_root")
+
+
+SPECIAL_REQUIRED = (["special:honest:" + l for l, _ in special_headers({})] + ["special:badroot:" + l for l, _ in special_headers({})]
+                    + ["special:root:" + l for l in list(SPECIAL_HASHES) + ["prev_hash", "first_txid", "last_txid", "header_hash",
+                                                                            "single_sha256_root"]]
+                    + ["special:all_zero_header", "badroot:special_root", "badroot:special_field"])
+
+
+def run_special_proofs(spec, rec):
+    """honest proofs whose header carries special field values / whose transaction ids are special constants, and proofs whose
+    header root was replaced by a special constant"""
+    rng = shard_rng(spec["seed"], PROPERTY, spec["tier"], _rs(spec), "special")
+    for idx, n in enumerate((1, 2, 3, 4, 5, 6, 7, 9, 12)):
+        net = "LTC" if idx % 3 == 1 else "BTC"
+        txids = G.fake_txids("sp%s" % spec["seed"], n)
+        variants = [("plain", txids)]
+        if n > 1:
+            for name in ("zero", "ones", "last_byte_01"):
+                for pos in sorted({0, n - 1, n // 2}):
+                    variants.append(("%s@%d" % (name, pos), txids[:pos] + [SPECIAL_HASHES[name]] + txids[pos + 1:]))
+        else:
+            variants += [(name, [SPECIAL_HASHES[name]]) for name in ("zero", "ones")]
+        for vname, ids in variants:
+            root = RM.root(ids)
+            base = G.rand_header(rng, root=root)
+            subsets = [tuple(range(n)), (), (n - 1,), tuple(i for i in range(n) if rng.random() < 0.5)]
+            hs = list(special_headers(base)) if vname == "plain" else [("base", base)]
+            for k, (label, h) in enumerate(hs):
+                m = subsets[k % len(subsets)]
+                total, hashes, fb = RP.build(ids, m)
+                rec.ev("special:proof_honest")
+                judge_proof(net, proof_msg(h, total, hashes, fb), "honest", [ids[i] for i in sorted(m)], rec)
+                if vname != "plain":
+                    i = rng.randrange(len(hashes))
+                    judge_proof(net, proof_msg(h, total, hashes[:i] + [_flip(hashes[i], rng.randrange(256))] + hashes[i + 1:], fb),
+                                "hash_bit", None, rec)
+                    rec.ev("special:proof_special_txid")
+            m = subsets[idx % len(subsets)]
+            total, hashes, fb = RP.build(ids, m)
+            for label, r2 in list(SPECIAL_HASHES.items()) + [("prev_hash", base["prev"])]:
+                if r2 == root:
+                    continue
+                rec.ev("special:proof_root:" + label)
+                judge_proof(net, proof_msg(dict(base, root=r2), total, hashes, fb), "root_altered", None, rec)
+                judge_proof(net, proof_msg(dict(base, root=r2, prev=b"\0" * 32, version=0, time=0, bits=0, nonce=0), total, hashes, fb),
+                            "root_altered", None, rec)
 
 
 def run_merkle(spec, rec):
-    rng = shard_rng(spec["seed"], PROPERTY, spec["tier"], spec["shard"])
+    rng = shard_rng(spec["seed"], PROPERTY, spec["tier"], _rs(spec))
     for n in list(range(1, spec["upto"] + 1)) + [511, 512, 513, 1000, 1023, 1024, 1025, 2047, 2048, 2049, 4097]:
         hs = G.fake_txids("m", n)
         judge_merkle(hs, rec, fake="m")
@@ -768,6 +936,12 @@ def run_merkle(spec, rec):
             judge_merkle([hs[0]] * n, rec)
             judge_merkle([G.rand_hash(rng) for _ in range(n)], rec)
             judge_merkle(hs[:-1] + [hs[0]], rec)
+            for name in ("zero", "ones", "last_byte_01", "first_byte_80"):
+                v = SPECIAL_HASHES[name]
+                rec.ev("merkle:special_entries")
+                judge_merkle([v] * n, rec)
+                for pos in sorted({0, n // 2, n - 1}):
+                    judge_merkle(hs[:pos] + [v] + hs[pos + 1:], rec)
     rec.sample({"op": "merkle(hashes)", "n": 5, "hashes": G.fake_txids("m", 5), "root": RM.root(G.fake_txids("m", 5))})
 
 
@@ -1070,7 +1244,7 @@ def judge_id_history(net, data, ops, rec):
 
 def run_history(spec, rec):
     net = spec["net"]
-    rng = shard_rng(spec["seed"], PROPERTY, spec["tier"], spec["shard"])
+    rng = shard_rng(spec["seed"], PROPERTY, spec["tier"], _rs(spec))
     customs = sorted(CUSTOM_F)
     sizes = list(range(1, 34)) + [64, 65, 127, 129]
     for rep in range(spec["reps"]):
@@ -1493,7 +1667,7 @@ def _pack_op(N, obj, cur, has_txs, kind, I, op, c, rec):
 
 def run_kinds(spec, rec):
     net = spec["net"]
-    rng = shard_rng(spec["seed"], PROPERTY, spec["tier"], spec["shard"])
+    rng = shard_rng(spec["seed"], PROPERTY, spec["tier"], _rs(spec))
     sizes = list(range(1, 18)) + [32, 33]
     for rep in range(spec["reps"]):
         todo = list(sizes) + [rng.randrange(18, 32), rng.choice([64, 65])]
@@ -1509,6 +1683,812 @@ def run_kinds(spec, rec):
                                [i for i in range(n) if rng.random() < rng.choice([0.1, 0.5])])
             judge_kinds(net, blocks, matches, gen_kinds_plan(rng, len(blocks)), rec)
     rec.sample({"op": "object kinds x entry points", "kinds": sorted(OBJECT_KINDS), "entry_points": list(OBJECT_OPS)})
+
+
+# ------------------------------------------------------------------------- refused calls between judged calls (error-path state)
+
+class _FailingStream(object):
+    """a caller's stream that takes `room` bytes and then refuses"""
+
+    def __init__(self, room):
+        self.room = room
+        self.got = 0
+
+    def write(self, b):
+        if self.got + len(b) > self.room:
+            take = self.room - self.got
+            self.got = self.room
+            raise IOError("stream refuses after %d bytes (%d of this write taken)" % (self.room, take))
+        self.got += len(b)
+        return len(b)
+
+
+class _PrefixRec(object):
+    """violations reported through this recorder get their mechanism key prefixed (same judgement, other circumstances)"""
+
+    def __init__(self, rec, prefix):
+        self._rec = rec
+        self._prefix = prefix
+        self.count = 0
+
+    def violation(self, mech, case, observed=None, expected=None, detail=None):
+        self.count += 1
+        self._rec.violation(self._prefix + mech, case, observed, expected, detail)
+
+    def __getattr__(self, name):
+        return getattr(self._rec, name)
+
+
+class _Ctx(object):
+    pass
+
+
+def _raising_f(after):
+    state = {"n": 0}
+
+    def f(b):
+        state["n"] += 1
+        if state["n"] > after:
+            raise ValueError("combining function gives up")
+        return RT.dsha(b)
+    return f
+
+
+def _version_fields(addr, **kw):
+    d = dict(version=70015, services=1, timestamp=1500000000, remote_address=addr, local_address=addr, nonce=7,
+             subversion=b"/vmon/", last_block_index=0, relay=True)
+    d.update(kw)
+    return d
+
+
+# name -> (uses a network's packer/parser (may be run on the other network), function(X) -> list of thunks, each expected to raise).
+# X.P: the network whose packer / parser / block class is used; X.full, X.hdr: a full block object and a header object of that
+# network (the judged ones when the refusal runs on the judged network); X.foreign: a header object of the other network;
+# X.I: block info; X.addr / X.inv: a PeerAddress / InvItem.  Everything goes through public entry points.
+def _mk_refusals():
+    R = {}
+
+    def pk(X, name, **kw):
+        return lambda: X.P.message.pack(name, **kw)
+
+    def ps(X, name, data):
+        return lambda: X.P.message.parse(name, data)
+
+    h1 = b"\x11" * 32
+    R["pack_version_without_relay"] = (True, lambda X: [pk(X, "version", **{k: v for k, v in _version_fields(X.addr).items()
+                                                                            if k != "relay"})])
+    R["pack_version_services_2_64"] = (True, lambda X: [pk(X, "version", **_version_fields(X.addr, services=1 << 64))])
+    R["pack_version_subversion_none"] = (True, lambda X: [pk(X, "version", **_version_fields(X.addr, subversion=None))])
+    R["pack_version_subversion_str"] = (True, lambda X: [pk(X, "version", **_version_fields(X.addr, subversion="/vmon/"))])
+    R["pack_version_last_block_2_32"] = (True, lambda X: [pk(X, "version", **_version_fields(X.addr, last_block_index=1 << 32))])
+    R["pack_reject_code_256"] = (True, lambda X: [pk(X, "reject", message=b"tx", code=256, reason=b"x", data=h1)])
+    R["pack_merkleblock_flag_256"] = (True, lambda X: [pk(X, "merkleblock", header=X.hdr, total_transactions=X.I["proof"][0],
+                                                          hashes=list(X.I["proof"][1]), flags=list(X.I["proof"][2]) + [256])])
+    R["pack_merkleblock_total_2_32"] = (True, lambda X: [pk(X, "merkleblock", header=X.full, total_transactions=1 << 32,
+                                                            hashes=list(X.I["proof"][1]), flags=list(X.I["proof"][2]))])
+    R["pack_merkleblock_total_float"] = (True, lambda X: [pk(X, "merkleblock", header=X.hdr, total_transactions=1.5,
+                                                             hashes=list(X.I["proof"][1]), flags=list(X.I["proof"][2]))])
+    R["pack_merkleblock_hash_str"] = (True, lambda X: [pk(X, "merkleblock", header=X.hdr, total_transactions=X.I["proof"][0],
+                                                          hashes=list(X.I["proof"][1]) + ["ab" * 16], flags=list(X.I["proof"][2]))])
+    R["pack_merkleblock_hash_none"] = (True, lambda X: [pk(X, "merkleblock", header=X.hdr, total_transactions=X.I["proof"][0],
+                                                           hashes=list(X.I["proof"][1]) + [None], flags=list(X.I["proof"][2]))])
+    R["pack_merkleblock_without_flags"] = (True, lambda X: [pk(X, "merkleblock", header=X.full, total_transactions=X.I["proof"][0],
+                                                               hashes=list(X.I["proof"][1]))])
+    R["pack_merkleblock_flags_none"] = (True, lambda X: [pk(X, "merkleblock", header=X.hdr, total_transactions=X.I["proof"][0],
+                                                            hashes=list(X.I["proof"][1]), flags=None)])
+    R["pack_merkleblock_header_none"] = (True, lambda X: [pk(X, "merkleblock", header=None, total_transactions=1, hashes=[h1], flags=[1])])
+    R["pack_merkleblock_header_foreign"] = (True, lambda X: [pk(X, "merkleblock", header=X.foreign, total_transactions=1, hashes=[h1],
+                                                                flags=[1])])
+    R["pack_headers_count_2_64"] = (True, lambda X: [pk(X, "headers", headers=[(X.hdr, 0), (X.full, 1 << 64)])])
+    R["pack_headers_count_str"] = (True, lambda X: [pk(X, "headers", headers=[(X.hdr, 0), (X.hdr, "1")])])
+    R["pack_headers_count_negative"] = (True, lambda X: [pk(X, "headers", headers=[(X.full, 0), (X.hdr, -1)])])
+    R["pack_headers_foreign_entry"] = (True, lambda X: [pk(X, "headers", headers=[(X.hdr, 0), (X.foreign, 0)])])
+    R["pack_headers_bytes_entry"] = (True, lambda X: [pk(X, "headers", headers=[(X.full, 0), (X.I["data"][:80], 0)])])
+    R["pack_block_bytes"] = (True, lambda X: [pk(X, "block", block=X.I["data"])])
+    R["pack_block_foreign"] = (True, lambda X: [pk(X, "block", block=X.foreign)])
+    R["pack_block_nonce_2_32"] = (True, lambda X: [pk(X, "block", block=X.bad_nonce)])
+    R["pack_block_root_none"] = (True, lambda X: [pk(X, "block", block=X.bad_root), pk(X, "headers", headers=[(X.bad_root, 0)])])
+    R["pack_block_tx_amount_2_64"] = (True, lambda X: [pk(X, "block", block=X.bad_amount)])
+    R["pack_block_tx_lock_time_2_32"] = (True, lambda X: [pk(X, "block", block=X.bad_lock_time)])
+    R["pack_getheaders_hash_none"] = (True, lambda X: [pk(X, "getheaders", version=1, hashes=[h1, None], hash_stop=h1)])
+    R["pack_getblocks_without_stop"] = (True, lambda X: [pk(X, "getblocks", version=1, hashes=[h1])])
+    R["pack_ping_2_64"] = (True, lambda X: [pk(X, "ping", nonce=1 << 64)])
+    R["pack_ping_none"] = (True, lambda X: [pk(X, "ping", nonce=None), pk(X, "pong", nonce="7"), pk(X, "ping", nonce=1.5)])
+    R["pack_sendcmpct_version_2_64"] = (True, lambda X: [pk(X, "sendcmpct", enabled=True, version=1 << 64)])
+    R["pack_inv_foreign_item"] = (True, lambda X: [pk(X, "inv", items=[X.inv, object()])])
+    R["pack_tx_none"] = (True, lambda X: [pk(X, "tx", tx=None)])
+    R["pack_blocktxn_tx_none"] = (True, lambda X: [pk(X, "blocktxn", header_hash=h1, txs=[X.full.txs[0], None])])
+    R["pack_unknown_message"] = (True, lambda X: [pk(X, "nosuchmessage", block=X.full)])
+    R["pack_filterload_byte_300"] = (True, lambda X: [pk(X, "filterload", filter=[1, 2, 300], hash_function_count=1, tweak=0, flags=True)])
+    R["pack_addr_time_2_32"] = (True, lambda X: [pk(X, "addr", date_address_tuples=[(1, X.addr), (1 << 32, X.addr)])])
+    # the parser
+    R["parse_block_truncated"] = (True, lambda X: [ps(X, "block", X.I["data"][:-1]), ps(X, "block", X.I["data"][:83])])
+    R["parse_block_bad_root"] = (True, lambda X: [ps(X, "block", X.I["bad"])])
+    R["parse_block_none"] = (True, lambda X: [ps(X, "block", None), ps(X, "block", X.I["data"].hex())])
+    R["parse_merkleblock_truncated"] = (True, lambda X: [ps(X, "merkleblock", X.I["proof_msg"][:-1]), ps(X, "merkleblock", X.I["proof_msg"][:90])])
+    R["parse_headers_truncated"] = (True, lambda X: [ps(X, "headers", b"\x02" + X.I["data"][:80] + b"\0" + X.I["data"][:40])])
+    R["parse_unknown_message"] = (True, lambda X: [ps(X, "nosuchmessage", X.I["data"])])
+    R["from_bin_truncated"] = (True, lambda X: [lambda: X.P.block.from_bin(X.I["data"][:-3]),
+                                                lambda: X.P.block.parse(io.BytesIO(X.I["data"][:81])),
+                                                lambda: X.P.block.parse_as_header(io.BytesIO(X.I["data"][:79]))])
+    R["from_bin_str"] = (True, lambda X: [lambda: X.P.block.from_bin(X.I["data"].hex()), lambda: X.P.block.from_bin(None)])
+    R["from_bin_bad_root"] = (True, lambda X: [lambda: X.P.block.from_bin(X.I["bad"])])
+    # the caller's stream refuses part-way through (the objects are the judged ones on the judged network)
+    R["stream_to_refusing_stream"] = (True, lambda X: [lambda: X.full.stream(_FailingStream(len(X.I["data"]) - 2)),
+                                                       lambda: X.full.stream(_FailingStream(81)),
+                                                       lambda: X.hdr.stream(_FailingStream(40))])
+    R["stream_header_to_refusing_stream"] = (True, lambda X: [lambda: X.hdr.stream_header(_FailingStream(70)),
+                                                              lambda: X.full.stream_header(_FailingStream(3)),
+                                                              lambda: X.hdr.stream_header(None)])
+    R["ids_of_unstreamable_header"] = (True, lambda X: [X.bad_nonce.hash, X.bad_nonce.id, X.bad_nonce.as_bin, X.bad_nonce.as_hex,
+                                                        X.bad_root.hash, X.bad_root.as_bin,
+                                                        lambda: X.bad_nonce.stream_header(io.BytesIO())])
+    R["check_merkle_hash_of_header"] = (True, lambda X: [X.aux_hdr.check_merkle_hash])
+    R["set_txs_bad_list_on_other_object"] = (True, lambda X: [lambda: X.aux_full.set_txs(list(X.aux_bad_txs)),
+                                                              lambda: X.aux_full.set_txs([None]),
+                                                              lambda: X.aux_full.set_txs([X.I["data"]])])
+    # merkle()
+    R["merkle_refused_lists"] = (False, lambda X: [lambda: X.merkle([]), lambda: X.merkle(X.I["txids"] + [None] * (1 + len(X.I["txids"]) % 2)),
+                                                   lambda: X.merkle(X.I["txids"] + ["00" * 32] * (1 + len(X.I["txids"]) % 2)),
+                                                   lambda: X.merkle(None), lambda: X.merkle([7, 8])])
+    R["merkle_combining_function_raises"] = (False, lambda X: [lambda: X.merkle(X.I["txids"] + [h1], _raising_f(len(X.I["txids"]) // 2)),
+                                                               lambda: X.merkle(X.I["txids"] + [h1], _raising_f(0)),
+                                                               lambda: X.merkle(X.I["txids"] + [h1], None)])
+    return R
+
+
+REFUSALS = _mk_refusals()
+# refusals carried out on the judged objects themselves; each is undone through the public method before the next judged call
+OBJECT_REFUSALS = ("set_nonce_2_32", "set_nonce_none", "set_txs_none_item", "set_txs_bad_list")
+ERR_JUDGED = OBJECT_OPS + ("parse_proof", "parse_corrupt_proof", "from_bin", "badroot", "merkle", "new_header")
+ERR_PACK_OPS = ("pack_merkleblock", "pack_headers", "pack_block")
+
+
+def gen_errpath_plan(rng):
+    """steps: ["refuse", name, "same"|"other"] / ["object_refuse", name, "full"|"hdr"] / ["judge", op, "full"|"hdr"]. Every kind of
+    refusal once per plan in a shuffled order, sometimes two in a row, each followed by 1-3 judged calls (the first one mostly
+    a message packed by the library)."""
+    names = sorted(REFUSALS) + list(OBJECT_REFUSALS)
+    rng.shuffle(names)
+    steps = []
+    for name in names:
+        if name in OBJECT_REFUSALS:
+            steps.append(["object_refuse", name, "full" if name.startswith("set_txs") or rng.random() < 0.5 else "hdr"])
+        else:
+            steps.append(["refuse", name, "other" if REFUSALS[name][0] and rng.random() < 0.25 else "same"])
+            if rng.random() < 0.15:
+                steps.append(["refuse", rng.choice(sorted(REFUSALS)), "same"])
+        first = rng.choice(ERR_PACK_OPS) if rng.random() < 0.6 else rng.choice(ERR_JUDGED)
+        which = "full" if first == "pack_block" or rng.random() < 0.5 else "hdr"
+        steps.append(["judge", first, which])
+        for _ in range(rng.choice([0, 0, 1, 2])):
+            steps.append(["judge", rng.choice(ERR_JUDGED), rng.choice(["full", "hdr"])])
+    return {"steps": steps, "nonce_salt": rng.getrandbits(32)}
+
+
+def _errpath_ctx(net, other, I, objs, where, rec):
+    """the things a refusal is built from, on the judged network (`same`: the judged objects) or on the other one"""
+    from pycoin.message.PeerAddress import PeerAddress
+    from pycoin.message.InvItem import InvItem
+    from pycoin.merkle import merkle
+    X = _Ctx()
+    X.I = I
+    X.merkle = merkle
+    X.addr = PeerAddress(1, bytes([127, 0, 0, 1]), 8333)
+    X.inv = InvItem(2, I["txids"][0])
+    P = _net(net if where == "same" else other)
+    F = _net(other if where == "same" else net)
+    X.P = P
+    data = I["data"]
+    H = I["header"]
+    if where == "same":
+        X.full, X.hdr = objs["full"][0], objs["hdr"][0]
+    else:
+        X.full, X.hdr = P.block.from_bin(data), P.block.parse_as_header(io.BytesIO(data[:80]))
+    X.foreign = F.block.from_bin(data)
+    X.aux_full = P.block.from_bin(data)
+    X.aux_hdr = P.block.parse_as_header(io.BytesIO(data[:80]))
+    X.aux_bad_txs = list(P.block.parse(io.BytesIO(I["bad"]), check_merkle_hash=False).txs)
+    X.bad_nonce = P.block(H["version"], H["prev"], H["root"], H["time"], H["bits"], 1 << 32)
+    X.bad_root = P.block(H["version"], H["prev"], None, H["time"], H["bits"], H["nonce"])
+    Tx = P.tx
+    good = X.aux_full.txs[0]
+    for name, tx in (("bad_amount", Tx(1, [Tx.TxIn(b"\x22" * 32, 0, b"\x51")], [Tx.TxOut(1 << 64, b"\x51")])),
+                     ("bad_lock_time", Tx(1, [Tx.TxIn(b"\x22" * 32, 0, b"\x51")], [Tx.TxOut(1, b"\x51")], 1 << 32))):
+        b = P.block(H["version"], H["prev"], H["root"], H["time"], H["bits"], H["nonce"])
+        b.set_txs([good, tx], check_merkle_hash=False)
+        setattr(X, name, b)
+    return X
+
+
+def judge_errpath(net, data, bad, m, plan, rec):
+    """One honest block `data` (and `bad`: the same header over other transactions), a full block object and a header object
+    of it that live through the whole sequence. Calls the library rightly refuses are interleaved with judged calls; every
+    judged answer is what it is without the refusals. A refusal is never judged."""
+    N = _net(net)
+    other = "LTC" if net == "BTC" else "BTC"
+    case = {"kind": "errpath", "net": net, "data": data, "bad": bad, "matches": list(m), "plan": plan}
+    rec.case(("errpath", net, data, bad, repr(m), repr(plan)))
+    rec.ev("cfg:%s:errpath" % net)
+    header, txs, used = RB.parse_block(data)
+    bheader, btxs, used = RB.parse_block(bad)
+    if RB.root_of(txs) != header["root"] or RB.root_of(btxs) == header["root"] or bheader != header:
+        raise RuntimeError("judge_errpath: generator error")
+    txids = [RT.txid_bytes(t) for t in txs]
+    total, hashes, fb = RP.build(txids, m)
+    I = {"data": data, "bad": bad, "header": header, "txids": txids, "proof": (total, hashes, fb),
+         "want": [txids[i] for i in sorted(m)], "proof_msg": proof_msg(header, total, hashes, fb)}
+    k = (len(hashes) * 7 + total) % len(hashes)
+    I["corrupt_proof_msg"] = proof_msg(header, total, hashes[:k] + [_flip(hashes[k], (total * 13) % 256)] + hashes[k + 1:], fb)
+    st, full = observe(N.block.from_bin, data)
+    st2, hdr = observe(N.block.parse_as_header, io.BytesIO(data[:80]))
+    if st != "ok" or st2 != "ok":
+        rec.violation("block.parse_rejects_valid" if st != "ok" else "header.parse_raises", case, full if st != "ok" else hdr, "object")
+        return
+    good_txs = list(full.txs)
+    objs = {"full": [full, dict(header), True, "from_bin_full"], "hdr": [hdr, dict(header), False, "parse_as_header"]}
+
+    def judged(op, which, c, salt, r):
+        obj, cur, has_txs, kind = objs[which]
+        if op in OBJECT_OPS:
+            return _object_op(N, obj, cur, has_txs, kind, I, op, c, salt, r)
+        if op == "parse_proof":
+            judge_proof(net, I["proof_msg"], "honest", I["want"], r)
+        elif op == "parse_corrupt_proof":
+            judge_proof(net, I["corrupt_proof_msg"], "hash_bit", None, r)
+        elif op == "from_bin":
+            r.ev("Block.from_bin")
+            st, b = observe(N.block.from_bin, data)
+            if st != "ok":
+                r.violation("block.parse_rejects_valid", c, b, "block")
+                return False
+            st, out = observe(b.as_bin)
+            if st != "ok" or out != data:
+                r.violation("block.roundtrip_mismatch", c, out, data)
+                return False
+            _judge_id(b, data, c, r)
+        elif op == "badroot":
+            r.ev("BadMerkleRoot:Block.from_bin")
+            st, b = observe(N.block.from_bin, bad)
+            if st == "ok":
+                r.violation("block.accepts_bad_merkle_root.from_bin", c, "accepted", "BadMerkleRootError")
+            r.ev("BadMerkleRoot:message.parse(block)")
+            st, b = bounded(N.message.parse, "block", bad)
+            if st == "ok":
+                r.violation("block.accepts_bad_merkle_root.message_parse", c, "accepted", "BadMerkleRootError")
+        elif op == "merkle":
+            from pycoin.merkle import merkle
+            from pycoin.encoding.hash import double_sha256
+            r.ev("merkle")
+            for args in ((list(txids),), (list(txids), double_sha256)):
+                st, v = observe(merkle, *args)
+                if st != "ok" or bytes(v) != header["root"]:
+                    r.violation("merkle.root_mismatch", c, v, header["root"])
+                    return False
+        elif op == "new_header":
+            judge_header(net, RB.ser_header(objs["hdr"][1]), r)
+        else:
+            raise ValueError(op)
+        return True
+
+    # the judged calls once before anything was refused: a fault that needs no refusal is not reported as an error-path fault
+    n0 = sum(rec.viol_count.values())
+    for i, op in enumerate(ERR_JUDGED):
+        if op in ("set_nonce", "alias_blockheader"):
+            continue
+        for which in ("full", "hdr"):
+            judged(op, which, dict(case, step=-1, op=op, which=which), plan["nonce_salt"] + i, rec)
+    if sum(rec.viol_count.values()) != n0:
+        rec.ev("errpath:baseline_not_clean")
+        return
+    pr = _PrefixRec(rec, "after_refusal.")
+    refused_before = False
+    ctxs = {}
+    for step, (what, name, arg) in enumerate(plan["steps"]):
+        c = dict(case, step=step)
+        if what == "refuse":
+            rec.ev("errpath:attempt:" + name)
+            if arg == "other":
+                rec.ev("errpath:attempt_on_other_network")
+            if arg not in ctxs:
+                ctxs[arg] = observe(_errpath_ctx, net, other, I, objs, arg, rec)
+            st, X = ctxs[arg]
+            if st != "ok":
+                rec.ev("errpath:material_unavailable")
+                rec.note("material of refusal %s could not be built: %r" % (name, X))
+                continue
+            st, thunks = observe(REFUSALS[name][1], X)
+            if st != "ok":
+                rec.ev("errpath:material_unavailable")
+                rec.note("material of refusal %s could not be built: %r" % (name, thunks))
+                continue
+            for t in thunks:
+                st, e = bounded(t)
+                if st == "exc":
+                    rec.ev("errpath:refused")
+                    rec.ev("errpath:refused:" + name)
+                    refused_before = True
+                elif st == "ok":
+                    rec.ev("errpath:not_refused:" + name)          # the library may accept more than it must: not judged
+        elif what == "object_refuse":
+            obj, cur, has_txs, kind = objs[arg]
+            rec.ev("errpath:attempt:" + name)
+            if name.startswith("set_nonce"):
+                v = (1 << 32) if name == "set_nonce_2_32" else None
+                observe(obj.set_nonce, v)
+                for fn in (obj.hash, obj.id, obj.as_bin, lambda: obj.stream(io.BytesIO())):
+                    st, e = observe(fn)
+                    rec.ev("errpath:refused" if st == "exc" else "errpath:not_refused:" + name)
+                    if st == "exc":
+                        rec.ev("errpath:refused:" + name)
+                        refused_before = True
+                st, e = observe(obj.set_nonce, cur["nonce"])
+                if st != "ok":
+                    pr.violation("block.set_nonce_raises", c, e, None)
+                    return
+            else:
+                lst = good_txs[:len(good_txs) // 2] + [None]
+                if name == "set_txs_bad_list":
+                    lst = list(N.block.parse(io.BytesIO(bad), check_merkle_hash=False).txs)
+                st, e = observe(obj.set_txs, lst)
+                rec.ev("errpath:refused" if st == "exc" else "errpath:not_refused:" + name)
+                if st == "exc":
+                    rec.ev("errpath:refused:" + name)
+                    refused_before = True
+                rec.ev("Block.set_txs")
+                st, e = observe(obj.set_txs, list(good_txs))
+                if st != "ok":
+                    pr.violation("block.history.set_txs_rejects_valid_after_refusal", c, e, None)
+                    return
+        else:
+            if refused_before:
+                rec.ev("errpath:judged_after_refusal")
+                if name in ERR_PACK_OPS:
+                    rec.ev("errpath:packed_after_refusal")
+            ok = judged(name, arg, dict(c, op=name, which=arg), plan["nonce_salt"] + 31 * step, pr if refused_before else rec)
+            if not ok or pr.count:
+                return
+
+
+def judge_mutable(net, data, m, rec):
+    """caller-owned mutable arguments (lists, bytearrays) are not modified by a call and give the same answer when handed over
+    again; containers the library returned, edited by the caller, do not change later answers."""
+    N = _net(net)
+    Block = N.block
+    from pycoin.merkle import merkle
+    header, txs, used = RB.parse_block(data)
+    if RB.root_of(txs) != header["root"]:
+        raise RuntimeError("judge_mutable: generator error")
+    txids = [RT.txid_bytes(t) for t in txs]
+    root = header["root"]
+    case = {"kind": "mutable", "net": net, "data": data, "matches": list(m)}
+    rec.case(("mutable", net, data, repr(m)))
+    rec.ev("cfg:%s:mutable" % net)
+    # merkle(list) / merkle(list of bytearray) / merkle(tuple), each object handed over twice
+    for form in ("list", "list_of_bytearray", "tuple", "list_custom_f"):
+        arg = [bytearray(t) for t in txids] if form == "list_of_bytearray" else tuple(txids) if form == "tuple" else list(txids)
+        f, ref_f = _hash_f("sha256" if form == "list_custom_f" else "default")
+        want = RM.root_with(txids, ref_f)
+        for rnd in range(2):
+            rec.ev("merkle")
+            st, r = observe(merkle, arg) if f is None else observe(merkle, arg, f)
+            if st != "ok":
+                if form in ("list", "list_custom_f"):
+                    rec.violation("merkle.root_mismatch", dict(case, form=form), r, want)
+                else:
+                    rec.ev("mutable:not_accepted:merkle_" + form)
+                break
+            rec.ev("mutable:merkle_" + form)
+            if len(arg) != len(txids) or [bytes(x) for x in arg] != txids:
+                rec.violation("mutable.merkle_modifies_its_argument", dict(case, form=form), [bytes(x) for x in arg], txids)
+                break
+            if bytes(r) != want:
+                rec.violation("mutable.merkle_wrong_on_second_call" if rnd else "merkle.root_mismatch", dict(case, form=form), r, want)
+                break
+    # parsing out of a caller's bytearray; the caller then reuses its buffer
+    total, hashes, fb = RP.build(txids, m)
+    want = [txids[i] for i in sorted(m)]
+    pmsg = proof_msg(header, total, hashes, fb)
+    for what in ("from_bin", "message_block", "message_merkleblock"):
+        src = pmsg if what == "message_merkleblock" else data
+        ba = bytearray(src)
+        got = []
+        for rnd in range(2):
+            st, v = bounded(Block.from_bin, ba) if what == "from_bin" else bounded(N.message.parse, what[8:], ba)
+            if st != "ok":
+                rec.ev("mutable:not_accepted:%s_bytearray" % what)
+                break
+            got.append(v)
+            rec.ev("mutable:%s_bytearray" % what)
+            if bytes(ba) != src:
+                rec.violation("mutable.parse_modifies_its_argument", dict(case, what=what), bytes(ba), src)
+                break
+        if len(got) == 2:
+            for i in range(len(ba)):
+                ba[i] = 0xEE
+            for v in got:
+                if what == "message_merkleblock":
+                    ok = [bytes(h) for h in v["tx_hashes"]] == want and _hdr_fields(v["header"]) == header and \
+                        [bytes(h) for h in v["hashes"]] == hashes
+                else:
+                    b = v if what == "from_bin" else v["block"]
+                    st, out = observe(b.as_bin)
+                    st2, h = observe(b.hash)
+                    st3, e = observe(b.check_merkle_hash)
+                    ok = st == "ok" and out == data and st2 == "ok" and bytes(h) == RT.dsha(data[:80]) and st3 == "ok"
+                if not ok:
+                    rec.violation("mutable.parsed_object_follows_callers_buffer", dict(case, what=what), "changed", "as parsed")
+                    break
+    # packing: the caller's containers are not modified, the same containers give the same message again
+    st, hobj = observe(Block.parse_as_header, io.BytesIO(data[:80]))
+    if st == "ok":
+        for form in ("lists", "bytearrays", "tuples"):
+            hs = [bytearray(h) for h in hashes] if form == "bytearrays" else tuple(hashes) if form == "tuples" else list(hashes)
+            fl = bytearray(fb) if form == "bytearrays" else tuple(fb) if form == "tuples" else list(fb)
+            entries = [[hobj, 0], [hobj, 1]] if form == "lists" else [(hobj, 0), (hobj, 1)]
+            if form == "tuples":
+                entries = tuple(entries)
+            href = P2P.encode("headers", {"headers": [{"header": header, "txn_count": 0}, {"header": header, "txn_count": 1}]})
+            for rnd in range(2):
+                rec.ev("message.pack(merkleblock)")
+                st, out = observe(N.message.pack, "merkleblock", header=hobj, total_transactions=total, hashes=hs, flags=fl)
+                if st != "ok":
+                    if form == "lists":
+                        rec.violation("pack.merkleblock_raises.header_only", dict(case, form=form), out, "packed message")
+                    else:
+                        rec.ev("mutable:not_accepted:pack_" + form)
+                    break
+                rec.ev("mutable:pack_" + form)
+                if len(hs) != len(hashes) or [bytes(h) for h in hs] != hashes or bytes(fl) != bytes(fb):
+                    rec.violation("mutable.pack_modifies_its_argument", dict(case, form=form), "containers changed", "unchanged")
+                    break
+                if out != pmsg:
+                    rec.violation("mutable.pack_wrong_on_second_call" if rnd else "pack.merkleblock_not_wire_format.header_only",
+                                  dict(case, form=form), out, pmsg)
+                    break
+                rec.ev("message.pack(headers)")
+                st, out = observe(N.message.pack, "headers", headers=entries)
+                if st != "ok":
+                    rec.ev("mutable:not_accepted:pack_headers_" + form)
+                    break
+                if len(entries) != 2 or [(e[0], e[1]) for e in entries] != [(hobj, 0), (hobj, 1)]:
+                    rec.violation("mutable.pack_modifies_its_argument", dict(case, form=form), "entries changed", "unchanged")
+                    break
+                if out != href:
+                    rec.violation("mutable.pack_wrong_on_second_call" if rnd else "pack.headers_not_wire_format", dict(case, form=form),
+                                  out, href)
+                    break
+    # set_txs(list): the caller's list is the caller's
+    st, b = observe(Block.from_bin, data)
+    if st == "ok":
+        lst = list(b.txs)
+        snap = list(lst)
+        fresh = Block(header["version"], header["prev"], header["root"], header["time"], header["bits"], header["nonce"])
+        rec.ev("Block.set_txs")
+        st, e = observe(fresh.set_txs, lst)
+        if st != "ok":
+            rec.violation("block.set_txs_rejects_valid", case, e, None)
+        elif len(lst) != len(snap) or any(x is not y for x, y in zip(lst, snap)):
+            rec.violation("mutable.set_txs_modifies_its_argument", case, len(lst), len(snap))
+        else:
+            rec.ev("mutable:set_txs_list")
+    # containers handed out by the parser, edited by the caller; the same bytes parsed again
+    for rnd in range(2):
+        st, d = bounded(N.message.parse, "merkleblock", pmsg)
+        if st != "ok":
+            break
+        for key in ("tx_hashes", "hashes", "flags"):
+            v = d.get(key)
+            if isinstance(v, list):
+                v.append(b"\xee" * 32 if key != "flags" else 0xff)
+                v.reverse()
+                rec.ev("mutable:returned_list_edited")
+            elif isinstance(v, bytearray):
+                v[:] = b"\xee" * len(v)
+        observe(d["header"].set_nonce, (header["nonce"] ^ 0x5555) & 0xffffffff)
+        d.clear()
+        st, d2 = bounded(N.message.parse, "block", data)
+        if st == "ok":
+            observe(d2["block"].set_nonce, (header["nonce"] ^ 0x3333) & 0xffffffff)
+            observe(d2["block"].set_txs, [])
+    rec.ev("mutable:reparsed_after_edit")
+    pr = _PrefixRec(rec, "after_edit_of_returned_container.")
+    judge_proof(net, pmsg, "honest", want, pr)
+    st, b = observe(Block.from_bin, data)
+    if st != "ok" or b.as_bin() != data or bytes(b.hash()) != RT.dsha(data[:80]):
+        pr.violation("block.roundtrip_mismatch", case, b, data)
+    st, d2 = bounded(N.message.parse, "block", data)
+    if st != "ok" or d2["block"].as_bin() != data:
+        pr.violation("block.roundtrip_mismatch", case, d2, data)
+
+
+def run_errpath(spec, rec):
+    net = spec["net"]
+    rng = shard_rng(spec["seed"], PROPERTY, spec["tier"], _rs(spec))
+    sizes = [1, 2, 3, 4, 5, 7, 8, 9, 12, 16, 17, 33]
+    for rep in range(spec["reps"]):
+        n = sizes[rep % len(sizes)]
+        header, txs = G.rand_block(rng, n)
+        data = RB.ser_block(header, txs)
+        alts = [t2 for c, h2, t2 in _alterations(header, txs, rng) if h2 is header and RB.root_of(t2) != header["root"]]
+        bad = RB.ser_block(header, rng.choice(alts))
+        r = rng.random()
+        m = list(range(n)) if r < 0.2 else [n - 1] if r < 0.4 else [i for i in range(n) if rng.random() < 0.5]
+        judge_errpath(net, data, bad, m, gen_errpath_plan(rng), rec)
+        judge_mutable(net, data, m, rec)
+    rec.sample({"op": "refused calls between judged calls", "refusals": sorted(REFUSALS) + list(OBJECT_REFUSALS),
+                "judged": list(ERR_JUDGED)})
+
+
+# ------------------------------------------------------------------------- long runs: the n-th operation on one object / in one process
+
+def _u32(v):
+    return v.to_bytes(4, "little")
+
+
+def _tiny_tx(tag, i):
+    """a one-input one-output transaction written out field by field (version, inputs, outputs, lock time)"""
+    prev = hashlib.sha256(b"%s/prev/%d" % (tag, i)).digest()
+    return (_u32(1) + b"\x01" + prev + _u32(i & 3) + b"\x01\x51" + _u32(0xffffffff) + b"\x01" + (5000 + i).to_bytes(8, "little")
+            + b"\x01\x51" + _u32(i & 0xffffffff))
+
+
+def longrun_part(net, part, count, tag, rec):
+    """more than 2**16 operations of one kind on ONE object (or on one process-wide function), each judged against a
+    reference that is kept up incrementally. Stops at the first disagreement (the witness is the operation number)."""
+    N = _net(net)
+    Block = N.block
+    from pycoin.merkle import merkle
+    tagb = tag.encode()
+    case = {"kind": "longrun", "net": net, "part": part, "count": count, "tag": tag}
+    rec.case(("longrun", net, part, count, tag))
+    base = {"version": 0x20000000, "prev": hashlib.sha256(tagb + b"prev").digest(), "root": hashlib.sha256(tagb + b"root").digest(),
+            "time": 1600000000, "bits": 0x1d00ffff, "nonce": 0}
+    hb = RB.ser_header(base)
+    done = 0
+
+    def bad(what, i, got, want):
+        rec.violation("longrun.%s.%s" % (part, what), dict(case, operation=i, past_2_16=i >= 65536), got, want)
+
+    if part == "set_nonce_hash":
+        # one header object and one full block object: set_nonce / hash / id / as_bin
+        body = b"\x01" + _tiny_tx(tagb, 0)
+        full_h = dict(base, root=RT.dsha(_tiny_tx(tagb, 0)))
+        objs = [(Block.parse_as_header(io.BytesIO(hb)), hb, b""), (Block.from_bin(RB.ser_header(full_h) + body), RB.ser_header(full_h), body)]
+        for i in range(count):
+            v = (i * 2654435761 + 12345) & 0xffffffff
+            for obj, h0, tail in objs:
+                obj.set_nonce(v)
+                want = RT.dsha(h0[:76] + _u32(v))
+                got = obj.hash()
+                if got != want:
+                    return bad("hash_mismatch", i, got, want)
+                if i % 61 == 0 or i >= count - 3:
+                    if not _hex_is(obj.id(), want[::-1].hex()):
+                        return bad("id_mismatch", i, obj.id(), want[::-1].hex())
+                    if obj.as_bin() != h0[:76] + _u32(v) + tail:
+                        return bad("as_bin_mismatch", i, obj.as_bin(), h0[:76] + _u32(v) + tail)
+                    if tail:
+                        st, e = observe(obj.check_merkle_hash)
+                        if st != "ok":
+                            return bad("check_merkle_hash_rejects_valid", i, e, None)
+            done += 1
+    elif part == "merkle":
+        # the process-wide function: fresh two- and three-entry lists, earlier lists asked again
+        hs = [hashlib.sha256(tagb + b"leaf").digest()]
+        for i in range(count):
+            hs.append(hashlib.sha256(hs[-1]).digest())
+            j = i if i % 8 else max(0, i - 1 - (i * 7919) % 40000)          # every 8th call repeats an earlier list
+            a, b = hs[j], hs[j + 1]
+            if i % 2:
+                want = RT.dsha(RT.dsha(a + b) + RT.dsha(a + a))
+                got = merkle([a, b, a])
+            else:
+                want = RT.dsha(a + b)
+                got = merkle([a, b])
+            if got != want:
+                return bad("root_mismatch", i, got, want)
+            done += 1
+    elif part in ("parse_proof", "pack_proof"):
+        # one network's parser / packer: proofs over two-transaction blocks; every 16th parsed proof carries a wrong root
+        a = hashlib.sha256(tagb + b"tx").digest()
+        shapes = ((3, (0,)), (5, (1,)), (7, (0, 1)), (0, ()))
+        for i in range(count):
+            b = hashlib.sha256(a).digest()
+            root = RT.dsha(a + b)
+            flag, m = shapes[i & 3]
+            hashes = [a, b] if m else [root]
+            msg = hb[:36] + root + hb[68:] + _u32(2) + bytes([len(hashes)]) + b"".join(hashes) + b"\x01" + bytes([flag])
+            if i < 8:
+                t, h2, f2 = RP.build([a, b], list(m))
+                if proof_msg(dict(base, root=root), t, h2, f2) != msg:
+                    rec.ev("inconclusive:longrun_proof_encoding")
+                    rec.note("long-run proof bytes differ from refs/pmt + refs/p2p")
+                    return
+            if part == "parse_proof":
+                if i % 16 == 5:
+                    st, d = bounded(N.message.parse, "merkleblock", msg[:36] + _flip(root, i % 256) + msg[68:])
+                    if st != "exc":
+                        return bad("accepts_root_altered", i, d, "exception")
+                st, d = bounded(N.message.parse, "merkleblock", msg)
+                if st != "ok":
+                    return bad("rejects_honest_proof", i, d, [(a, b)[k] for k in m])
+                if [bytes(x) for x in d["tx_hashes"]] != [(a, b)[k] for k in m]:
+                    return bad("wrong_matches", i, d["tx_hashes"], [(a, b)[k] for k in m])
+            else:
+                st, out = observe(N.message.pack, "merkleblock", header=Block.parse_as_header(io.BytesIO(msg[:80])),
+                                  total_transactions=2, hashes=hashes, flags=[flag])
+                if st != "ok" or out != msg:
+                    return bad("not_wire_format", i, out, msg)
+            a = b
+            done += 1
+    elif part == "from_bin":
+        # the block class's parser: one-transaction blocks; every 16th has a wrong root
+        for i in range(count):
+            tx = _tiny_tx(tagb, i)
+            data = hb[:36] + RT.dsha(tx) + hb[68:76] + _u32(i) + b"\x01" + tx
+            if i < 4:
+                hd, txs, used = RB.parse_block(data)
+                if RB.root_of(txs) != hd["root"] or RB.ser_block(hd, txs) != data:
+                    rec.ev("inconclusive:longrun_block_encoding")
+                    return
+            if i % 16 == 3:
+                st, b = observe(Block.from_bin, data[:36] + _flip(data[36:68], i % 256) + data[68:])
+                if st == "ok":
+                    return bad("accepts_bad_merkle_root", i, "accepted", "BadMerkleRootError")
+            st, b = observe(Block.from_bin, data)
+            if st != "ok":
+                return bad("rejects_valid", i, b, "block")
+            if b.as_bin() != data:
+                return bad("roundtrip_mismatch", i, b.as_bin(), data)
+            if b.hash() != RT.dsha(data[:80]):
+                return bad("hash_mismatch", i, b.hash(), RT.dsha(data[:80]))
+            done += 1
+    else:
+        raise ValueError(part)
+    rec.ev("longrun:%s:operations" % part, done)
+    if done > 65536 + 64:
+        rec.ev("longrun:%s:past_2_16" % part)
+
+
+HEADERS_TXN_COUNTS = (1, 252, 253, 254, 65535, 65536, 65537, 0xffffffff, 0x100000000, 0xffffffffffffffff)
+SMALL_BOUNDARY_COUNTS = (252, 253, 254)
+
+
+def all_matched_flag_bytes(n):
+    """flag bytes of the honest proof that matches every transaction of an n-transaction block: one bit per tree node"""
+    return (sum(RM.width(n, h) for h in range(RM.height(n) + 1)) + 7) // 8
+
+
+def run_small_boundaries(spec, rec):
+    """hash counts, flag-byte counts and 'headers' entry counts on both sides of the one-byte / three-byte compact-size boundary"""
+    tag = "sb%s" % spec["seed"]
+    for k, n in enumerate(SMALL_BOUNDARY_COUNTS):
+        judge_bigcount("LTC" if k == 1 else "BTC", "proof", n, tag, rec)
+        judge_bigcount("LTC" if k == 2 else "BTC", "headers", n, tag, rec)
+    want = set(SMALL_BOUNDARY_COUNTS)
+    for n in range(900, 1100):
+        fbn = all_matched_flag_bytes(n)
+        if fbn in want:
+            want.discard(fbn)
+            ids = G.fake_txids(tag, n)
+            total, hashes, fb = RP.build(ids, list(range(n)))
+            if len(fb) != fbn:
+                rec.ev("inconclusive:flag_byte_count_formula")
+                rec.note("all-matched proof of %d transactions has %d flag bytes, formula says %d" % (n, len(fb), fbn))
+                continue
+            rec.ev("csize_boundary_flag_bytes:%d" % fbn)
+            judge_bigcount("BTC", "proof", n, tag, rec)
+
+
+LONGRUN_PARTS = ("set_nonce_hash", "merkle", "parse_proof", "pack_proof", "from_bin")
+BIG_COUNTS = (65535, 65536, 65537)
+BIG_BLOCK_COUNTS = (65535, 65536)          # last count of the three-byte form, first of the five-byte form
+
+
+def judge_bigcount(net, what, n, tag, rec):
+    """counts on both sides of the three-byte / five-byte compact-size boundary: transactions of a block, hashes of a proof,
+    entries of a 'headers' message, entries of merkle()"""
+    N = _net(net)
+    Block = N.block
+    from pycoin.merkle import merkle
+    tagb = tag.encode()
+    case = {"kind": "bigcount", "net": net, "what": what, "n": n, "tag": tag}
+    rec.case(("bigcount", net, what, n, tag))
+    rec.ev("bigcount:%s:%d" % (what, n))
+    base = {"version": 2, "prev": hashlib.sha256(tagb + b"prev").digest(), "root": b"\0" * 32, "time": 1600000000, "bits": 0x1d00ffff,
+            "nonce": n}
+    if what == "block":
+        txb = [_tiny_tx(tagb, i) for i in range(n)]
+        tids = [RT.dsha(x) for x in txb]
+        root = RM.root(tids)
+        data = RB.ser_header(dict(base, root=root)) + RT.csize(n) + b"".join(txb)
+        rec.ev("Block.from_bin")
+        st, b = bounded(Block.from_bin, data)
+        if st != "ok":
+            rec.violation("block.parse_rejects_valid", case, b, "block of %d txs" % n)
+            return
+        st, out = observe(b.as_bin)
+        if st != "ok" or out != data:
+            rec.violation("block.roundtrip_mismatch", case, "differs" if st == "ok" else out, "the parsed bytes")
+        if len(b.txs) != n:
+            rec.violation("block.tx_count_mismatch", case, len(b.txs), n)
+        if bytes(b.hash()) != RT.dsha(data[:80]):
+            rec.violation("block.hash_mismatch", case, b.hash(), RT.dsha(data[:80]))
+        rec.ev("message.pack(block)")
+        st, out = observe(N.message.pack, "block", block=b)
+        if st != "ok" or out != data:
+            rec.violation("pack.block_not_wire_format.full" if st == "ok" else "pack.block_raises.full", case,
+                          "differs" if st == "ok" else out, "the block bytes")
+        del b, out
+        # last two transactions swapped: not this root
+        bad = data[:80] + RT.csize(n) + b"".join(txb[:-2] + [txb[-1], txb[-2]])
+        rec.ev("BadMerkleRoot:Block.from_bin")
+        st, b = bounded(Block.from_bin, bad)
+        if st == "ok":
+            rec.violation("block.accepts_bad_merkle_root.from_bin", case, "accepted", "BadMerkleRootError")
+    elif what == "merkle":
+        ids = [hashlib.sha256(tagb + b"%d" % i).digest() for i in range(n)]
+        want = RM.root(ids)
+        rec.ev("merkle")
+        st, r = observe(merkle, list(ids))
+        if st != "ok" or bytes(r) != want:
+            rec.violation("merkle.root_mismatch", case, r, want)
+    elif what == "proof":
+        ids = [hashlib.sha256(tagb + b"%d" % i).digest() for i in range(n)]
+        root = RM.root(ids)
+        h = dict(base, root=root)
+        total, hashes, fb = RP.build(ids, list(range(n)))
+        msg = proof_msg(h, total, hashes, fb)
+        rec.ev("message.parse(merkleblock)")
+        st, d = bounded(N.message.parse, "merkleblock", msg)
+        if st != "ok":
+            rec.violation("pmt.rejects_honest_proof", case, d, "all %d ids" % n)
+        elif [bytes(x) for x in d["tx_hashes"]] != ids:
+            rec.violation("pmt.wrong_matches", case, len(d["tx_hashes"]), n)
+        obj = Block.parse_as_header(io.BytesIO(msg[:80]))
+        rec.ev("message.pack(merkleblock)")
+        st, out = observe(N.message.pack, "merkleblock", header=obj, total_transactions=total, hashes=hashes, flags=list(fb))
+        if st != "ok" or out != msg:
+            rec.violation("pack.merkleblock_not_wire_format.header_only" if st == "ok" else "pack.merkleblock_raises.header_only", case,
+                          "differs" if st == "ok" else out, "reference encoding")
+        k = n // 2
+        st, d = bounded(N.message.parse, "merkleblock", proof_msg(h, total, hashes[:k] + [_flip(hashes[k], 9)] + hashes[k + 1:], fb))
+        if st == "ok":
+            rec.violation("pmt.accepts_hash_bit", case, "accepted", "exception")
+    elif what == "headers":
+        hs = [dict(base, nonce=i, root=hashlib.sha256(tagb + b"%d" % (i & 7)).digest()) for i in range(8)]
+        raw = [RB.ser_header(h) for h in hs]
+        objs = [Block.parse_as_header(io.BytesIO(r)) for r in raw]
+        cnts = [HEADERS_TXN_COUNTS[(i // 5) % len(HEADERS_TXN_COUNTS)] if i % 5 == 0 else 0 for i in range(n)]
+        want = RT.csize(n) + b"".join(raw[i & 7] + RT.csize(cnts[i]) for i in range(n))
+        rec.ev("message.pack(headers)")
+        st, out = observe(N.message.pack, "headers", headers=[(objs[i & 7], cnts[i]) for i in range(n)])
+        if st != "ok" or out != want:
+            rec.violation("pack.headers_not_wire_format" if st == "ok" else "pack.headers_raises", case,
+                          "differs" if st == "ok" else out, "reference encoding")
+            return
+        rec.ev("message.parse(headers)")
+        st, d = bounded(N.message.parse, "headers", want)
+        if st != "ok":
+            rec.violation("headers.parse_raises", case, d, "headers")
+        elif len(d["headers"]) != n or any(_hdr_fields(h) != hs[i & 7] or k != cnts[i] for i, (h, k) in enumerate(d["headers"])):
+            rec.violation("headers.roundtrip_mismatch", case, len(d["headers"]), n)
+    else:
+        raise ValueError(what)
+
+
+def run_longrun(spec, rec):
+    count = spec["count"]
+    tag = "lr%s" % spec["seed"]
+    for k, part in enumerate(LONGRUN_PARTS):
+        longrun_part("BTC" if k % 2 == 0 else "LTC", part, count, tag, rec)
+    for k, n in enumerate(BIG_COUNTS):
+        for j, what in enumerate(("merkle", "proof", "headers", "block")):
+            if what == "block" and n not in BIG_BLOCK_COUNTS:
+                continue
+            judge_bigcount("LTC" if (k + j) % 3 == 2 else "BTC", what, n, tag, rec)
+    rec.sample({"op": "long run", "operations_per_part": count, "parts": list(LONGRUN_PARTS), "big_counts": list(BIG_COUNTS)})
 
 
 BADROOT_CLASSES = ("value_bit", "lock_time_bit", "script_changed", "prevout_changed", "version_changed", "root_bit", "root_reversed",
@@ -1538,21 +2518,40 @@ def _run_shard(spec, rec):
                     "BadMerkleRoot:Block.parse", "BadMerkleRoot:Block.parse(include_offsets)", "BadMerkleRoot:message.parse(block)",
                     "BadMerkleRoot:Block.check_merkle_hash", "BadMerkleRoot:Block.set_txs", "witness_altered_block",
                     "last_repeated_same_root_block", *["badroot:" + c for c in BADROOT_CLASSES])
+        rec.require(*SPECIAL_REQUIRED)
+        rec.require(*["csize_boundary_tx_count:%d" % n for n in spec.get("csize_counts", ())])
         rec.require(*["cfg:%s:%s" % (spec["net"], c) for c in ("header", "block", "badroot")])
         run_blocks(spec, rec)
     elif kind == "merkle":
-        rec.require("merkle")
+        rec.require("merkle", "merkle:special_entries")
         run_merkle(spec, rec)
     elif kind == "cve":
         rec.require("proof:cve_duplicate", "cve:both_copies_matched", "cve:first_copy_leaf_matched", "cve:second_copy_leaf_matched",
                     "cve:pair_supplied_as_hashes", "cfg:BTC:proof_corrupted", "cfg:LTC:proof_corrupted")
+        rec.require("special:proof_honest", "special:proof_special_txid", *["special:proof_root:" + l for l in SPECIAL_HASHES])
+        rec.require(*["csize_boundary_flag_bytes:%d" % n for n in SMALL_BOUNDARY_COUNTS])
+        rec.require(*["bigcount:%s:%d" % (w, n) for w in ("proof", "headers") for n in SMALL_BOUNDARY_COUNTS])
         run_cve(spec, rec)
+        run_special_proofs(spec, rec)
+        run_small_boundaries(spec, rec)
     elif kind == "history":
         rec.require("merkle", "merkle(hash_f=custom)", "merkle(hash_f=double_sha256)", "history:custom_then_bitcoin",
                     "history:bitcoin_then_custom", "Block.from_bin", "BadMerkleRoot:Block.from_bin", "BadMerkleRoot:other_hash_f_root",
                     "Block.set_txs", "Block.check_merkle_hash", "BadMerkleRoot:Block.check_merkle_hash", "Block.set_nonce", "Block.id",
                     "proof:honest", "Block.as_blockheader.id")
         run_history(spec, rec)
+    elif kind == "errpath":
+        rec.require(*["errpath:attempt:" + n for n in list(REFUSALS) + list(OBJECT_REFUSALS)])
+        rec.require("errpath:refused", "errpath:judged_after_refusal", "errpath:packed_after_refusal", "errpath:attempt_on_other_network",
+                    "cfg:%s:errpath" % spec["net"], "cfg:%s:mutable" % spec["net"], "mutable:merkle_list", "mutable:pack_lists",
+                    "mutable:set_txs_list", "mutable:reparsed_after_edit", "mutable:returned_list_edited", "message.pack(merkleblock)",
+                    "message.pack(headers)", "message.pack(block)")
+        run_errpath(spec, rec)
+    elif kind == "longrun":
+        rec.require(*["longrun:%s:past_2_16" % p for p in LONGRUN_PARTS])
+        rec.require(*["bigcount:%s:%d" % (w, n) for w in ("merkle", "proof", "headers") for n in BIG_COUNTS])
+        rec.require(*["bigcount:block:%d" % n for n in BIG_BLOCK_COUNTS])
+        run_longrun(spec, rec)
     elif kind == "proofs":
         rec.require("message.parse(merkleblock)", "proof:honest", "proof:hash_bit", "proof:hash_appended", "proof:hash_inserted",
                     "proof:hash_removed", "proof:padding_bit", "proof:root_altered", "proof:extra_flag_byte_set", "proof:honest_again",
@@ -1593,5 +2592,13 @@ def _replay_case(case, rec):
         judge_proof(case["net"], case["data"], case["cls"], case.get("want"), rec)
     elif kind == "kinds":
         judge_kinds(case["net"], case["blocks"], case["matches"], case["plan"], rec)
+    elif kind == "errpath":
+        judge_errpath(case["net"], case["data"], case["bad"], case["matches"], case["plan"], rec)
+    elif kind == "mutable":
+        judge_mutable(case["net"], case["data"], case["matches"], rec)
+    elif kind == "longrun":
+        longrun_part(case["net"], case["part"], case["count"], case["tag"], rec)
+    elif kind == "bigcount":
+        judge_bigcount(case["net"], case["what"], case["n"], case["tag"], rec)
     else:
         raise ValueError("unknown case kind %r" % kind)
